@@ -363,6 +363,8 @@ def build(spec, case_seed=0, solver_kwargs=None, make_solver=True):
         pk["delta_time"] = timedelta(seconds=spec["delta_time_s"])
     if spec.get("start_time") is not None:
         pk["start_time"] = datetime.fromisoformat(spec["start_time"])
+    if spec.get("end_time") is not None:
+        pk["end_time"] = datetime.fromisoformat(spec["end_time"])
     h.problem = _stage("problem", pk, lambda: ps.SchedulingProblem(**pk))
 
     for t in spec.get("tasks", []):
